@@ -8,9 +8,10 @@ use yasna::Tag;
 #[cfg(feature = "pem")]
 use crate::ENCODE_CONFIG;
 use crate::{
-	check_time_encodable, dt_strip_nanos, dt_to_generalized, oid, write_distinguished_name,
-	write_dt_utc_or_generalized, write_x509_authority_key_identifier, write_x509_extension,
-	Certificate, Error, Issuer, KeyIdMethod, KeyPair, KeyUsagePurpose, SerialNumber,
+	check_ia5, check_time_encodable, dt_strip_nanos, dt_to_generalized, oid,
+	write_distinguished_name, write_dt_utc_or_generalized, write_x509_authority_key_identifier,
+	write_x509_extension, Certificate, Error, Issuer, KeyIdMethod, KeyPair, KeyUsagePurpose,
+	SerialNumber,
 };
 
 /// A certificate revocation list (CRL)
@@ -107,6 +108,11 @@ pub struct CrlDistributionPoint {
 }
 
 impl CrlDistributionPoint {
+	/// The URIs are written as `IA5String`s, so they have to be ASCII.
+	pub(crate) fn check_uris(&self) -> Result<(), Error> {
+		self.uris.iter().try_for_each(|uri| check_ia5(uri))
+	}
+
 	pub(crate) fn write_der(&self, writer: DERWriter) {
 		// DistributionPoint SEQUENCE
 		writer.write_sequence(|writer| {
@@ -193,6 +199,9 @@ impl CertificateRevocationListParams {
 		issuer: &Certificate,
 		issuer_key: &KeyPair,
 	) -> Result<CertificateRevocationList, Error> {
+		if let Some(issuing_distribution_point) = &self.issuing_distribution_point {
+			issuing_distribution_point.distribution_point.check_uris()?;
+		}
 		check_time_encodable(self.this_update)?;
 		check_time_encodable(self.next_update)?;
 		for revoked_cert in &self.revoked_certs {
